@@ -132,6 +132,8 @@ def raw_dtype_root(v, depth=0):
                 if r is not None:
                     return r
             return None
+        if v.fn in ("empty_like", "zeros_like", "ones_like", "full_like") and v.args and v.kwd("dtype") is None:
+            return raw_dtype_root(v.args[0], depth + 1)     # a buffer allocated "like" the scores has the scores' dtype
         if v.fn in RAW_VIEW_FNS and v.args:
             for a in (v.args if v.fn in ("concat", "union1d") else v.args[:1]):
                 r = raw_dtype_root(a, depth + 1)
